@@ -258,7 +258,8 @@ class DSDLTemplateLoader(BaseLoader):
                 self._type_to_template_lookup_cache[(walk, current_search_type)] = template_path
                 break
             except KeyError:
-                for base_type in current_search_type.__bases__:
+                # The inheritance chain of a PyDSDL type ends at pydsdl.Any: its own bases (abc.ABC) are not DSDL types.
+                for base_type in () if current_search_type is pydsdl.Any else current_search_type.__bases__:
                     if base_type != object and base_type not in discovered:
                         search_queue.appendleft(base_type)
                         discovered.add(current_search_type)
